@@ -47,10 +47,15 @@ VIOLATION_CLASSES = {"answer", "concurrent"}   # the property itself, observed o
 # generator no longer describe the code: inconclusive, never a violation
 
 
+def _tmo(t):
+    """TLC timeouts; VERIF_C13_TLC_TIMEOUT overrides them on an oversubscribed development machine"""
+    return int(os.environ.get("VERIF_C13_TLC_TIMEOUT", "0")) or t
+
+
 def _model_check(ctx, module, cfgs, out):
     try:
         for cfg in cfgs:
-            r = ctx.tlc("ringclient", module, cfg=cfg + ".cfg", timeout=1500 if ctx.tier == "thorough" else 400,
+            r = ctx.tlc("ringclient", module, cfg=cfg + ".cfg", timeout=_tmo(1500 if ctx.tier == "thorough" else 400),
                         coverage=(ctx.tier == "thorough"), count=False,
                         workers=int(os.environ.get("VERIF_C13_WORKERS", "0")) or None)
             out.append((cfg, r))
@@ -65,7 +70,7 @@ def _validate(ctx, module, trace, recs, n_expected, what):
     if recs:
         files[recs] = "recs.ndjson"
     r = ctx.tlc("ringclient", module, cfg=module + ".cfg", extra_files=files, workers=1, deadlock=False,
-                timeout=1500 if ctx.tier == "thorough" else 600, count=False)
+                timeout=_tmo(1500 if ctx.tier == "thorough" else 600), count=False)
     ctx.require_tlc_ok(r, what)
     rep = verif.read_ndjson(r.out_path)
     if len(rep) != 1 or rep[0].get("n") != n_expected:
@@ -142,7 +147,7 @@ def run(ctx):
         ti, tp, recs = ctx.path("trace_i.ndjson"), ctx.path("trace_p.ndjson"), ctx.path("recs.ndjson")
         env = {"VERIF_TRACE_I": ti, "VERIF_TRACE_P": tp, "VERIF_RECS": recs}
         if quick:
-            env.update({"VERIF_SYSCFGS": 1, "VERIF_RANDOM": 4, "VERIF_CONC": 2, "VERIF_ROUNDS": 10})
+            env.update({"VERIF_SYSCFGS": 1, "VERIF_RANDOM": 3, "VERIF_CONC": 2, "VERIF_ROUNDS": 10})
         else:
             env.update({"VERIF_SYSCFGS": 4, "VERIF_RANDOM": 40, "VERIF_CONC": 10, "VERIF_ROUNDS": 25})
         res = ctx.run_harness("c13", "^TestRecord$", env=env, timeout=int(os.environ.get("VERIF_C13_HARNESS_TIMEOUT", "900")))
